@@ -56,11 +56,11 @@ func EndBlocker(ctx sdk.Context, k keeper.Keeper) {
 	}
 
 	// calculate threshold power for a block to be considered as a winner
-	// threshold = total power * params.VoteThreshold (0.5 by default)
+	// threshold = total power * params.VoteThreshold (0.5 by default), rounded up
 	// The total is the sum of the powers the tally counts with: under sdk.ConstantReward every validator has power 1
 	// and TokensToConsensusPower(TotalBondedTokens) is 1 as well, which made a single validator reach any threshold.
 	voteThreshold := params.VoteThreshold
-	thresholdVotes := voteThreshold.MulInt64(totalBondedPower).RoundInt()
+	thresholdVotes := voteThreshold.MulInt64(totalBondedPower).Ceil().TruncateInt()
 
 	// Get all aggregate votes
 	aggregateVotes := k.GetAggregateVotes(ctx)
